@@ -9,6 +9,27 @@ PROPS = {"sdo": ["C01", "C02", "C03", "C06", "C07", "C12", "C13"],
          "pdo": ["C05", "C09", "C15", "C17", "C19", "C20"],
          "nmtnet": ["C10", "C11", "C16", "C17", "C18", "C02", "C06"],
          "od": ["C03", "C04", "C08", "C14", "C20", "C06"]}
+FILE_PROPS = {"canopen/nmt.py": ["C11", "C17"], "canopen/pdo/base.py": ["C05", "C09", "C15", "C17"],
+              "canopen/node/local.py": ["C02", "C03", "C06"], "canopen/emcy.py": ["C16"], "canopen/lss.py": ["C18"],
+              "canopen/profiles/p402.py": ["C19"], "canopen/sdo/client.py": ["C01", "C03", "C07", "C12", "C13"],
+              "canopen/sdo/server.py": ["C02", "C03", "C06", "C07"], "canopen/network.py": ["C10", "C17"],
+              "canopen/variable.py": ["C20"], "canopen/objectdictionary/__init__.py": ["C04", "C08", "C20"]}
+
+
+def props_of(hid):
+    """groups of the first round have a fixed list; later groups: the properties anchored in the files the patch touches"""
+    group = hid.split("/")[0]
+    if group in PROPS:
+        return PROPS[group]
+    files = [l[6:].strip() for l in open("harmless/%s.diff" % hid) if l.startswith("+++ b/")]
+    out = []
+    for f in files:
+        for p in FILE_PROPS.get(f, []):
+            if p not in out:
+                out.append(p)
+    return out
+
+
 ids = sys.argv[1:] or sorted(p[len("harmless/"):-5] for p in glob.glob("harmless/*/*.diff"))
 out = json.load(open("harmless/RESULTS.json")) if os.path.exists("harmless/RESULTS.json") else {}
 WT, OUT = "/tmp/harmless-wt", "/tmp/harmless-out"
@@ -27,7 +48,7 @@ try:
             continue
         shutil.rmtree(OUT, ignore_errors=True)
         res = {"applies": True, "checks": {}}
-        for p in PROPS[group]:
+        for p in props_of(hid):
             c = subprocess.run("./check %s --tier quick" % p, shell=True, capture_output=True, text=True, env=env)
             lines = [l for l in c.stdout.splitlines() if l.startswith(("VIOLATION", "CHECKER-ERROR", "UNDECIDED"))]
             res["checks"][p] = {"exit": c.returncode, "lines": [l[:300] for l in lines[:3]]}
